@@ -636,7 +636,7 @@ var pins = []pin{
 	{"pkg/conversion", "defAddrToName"}, {"pkg/conversion", "dialectNameGoToDef"}, {"pkg/conversion", "dialectNameDefToGo"},
 	{"pkg/conversion", "parseDescription"}, {"pkg/conversion", "uintPow"}, {"pkg/conversion", "processDefinition"},
 	{"pkg/conversion", "getDefinition"}, {"pkg/conversion", "processMessage"}, {"pkg/conversion", "processField"},
-	{"pkg/conversion", "writeDialect"}, {"pkg/conversion", "writeEnum"}, {"pkg/conversion", "writeMessage"}, {"pkg/conversion", "Convert"},
+	{"pkg/conversion", "writeDialect"}, {"pkg/conversion", "writeEnum"}, {"pkg/conversion", "writeMessage"}, {"pkg/conversion", "Convert"}, {"pkg/conversion", "goFileName"},
 	{"pkg/conversion", "definitionMessage.UnmarshalXML"}, {"pkg/conversion", "definitionDecode"},
 }
 
@@ -838,6 +838,17 @@ func genConsts() string {
 		}
 		return "[" + strings.Join(vs, ", ") + "]"
 	}
+	// generated file names: the last name elements the generator treats as reserved by the go tool (keys of a map literal)
+	var sfx []string
+	for _, kv := range mapLit("pkg/conversion", "reservedFileSuffixes") {
+		k, err := strconv.Unquote(kv[0])
+		if err != nil || kv[1] != "{}" {
+			die("reservedFileSuffixes: entry %s: %s is not a string key with an empty struct", kv[0], kv[1])
+		}
+		sfx = append(sfx, fmt.Sprintf("%q", k))
+	}
+	sort.Strings(sfx)
+	b.WriteString("def reservedFileSuffixes : List String := [" + strings.Join(sfx, ", ") + "]\n")
 	b.WriteString("def heartbeatFields : List (String × String) := " + setUints("nodeHeartbeat.run") + "\n")
 	b.WriteString("def streamRequestFields : List (String × String) := " + setUints("nodeStreamRequest.onEventFrame") + "\n")
 	b.WriteString("end Mav.Gen\n")
